@@ -662,3 +662,253 @@ Print Assumptions C01_source_end_to_end_roundtrip_stream.
 Print Assumptions C01_source_end_to_end_roundtrip_stream_bounded.
 Print Assumptions C01_source_end_to_end_no_key.
 
+(* =========================================== PART C01: props/C01.v ======================================= *)
+From SP Require GoAstEntry GoAstProofs5a GoAstProofs5c GoAstProofs6a GoAstProofs6b GoEndToEndEnc GoEndToEndSign GoAstProofs8a.
+(* ---- source ties: the CONSTRUCTOR and ONE-SHOT entry points of the encryption sender (/repo/encrypt.go:
+   receiversToEphemeralKeyCreator, newEncryptStream, NewEncryptStream, seal, Seal), lemmas of proofs/GoAstProofs8a.v ----
+   The terms are gen/GoAstEntry.v.  newEncryptStream returns the object g_es st' (st' = what es_init, i.e. the translated
+   init by GoAstProofs5a.go_encryptStream_init, leaves on the FRESH state fresh_st v W) that the ties of Write / Close and
+   the sessions of GoEndToEndEnc.v start from (nes_session_start), or (nil, err); NewEncryptStream / Seal are their
+   callees behind the receivers check.  The body of seal is NOT EXPRESSIBLE in the evaluator (the bytes.Buffer shared
+   between `buf` and the stream: values are trees, see the head of GoAstProofs8a.v): go_seal_glue is its control flow for
+   every behaviour of the callees, go_seal_stale what the evaluator returns with faithful externs (the header packet),
+   go_seal_aliased the tie to seal_spec with the sharing as an explicit hypothesis on Buffer.Bytes, seal_spec_model
+   seal_spec against the model's seal.  compose_*: the meanings of the callees are the outcomes of their translated terms. *)
+Section C01_source_entry.
+Import GoAstEntry GoAstProofs8a.
+Local Open Scope string_scope.
+
+Theorem C01_source_go_receiversToEphemeralKeyCreator :
+  forall (ext : externs) (l : list gval),
+  fst (run_func2 ext f_saltpack_receiversToEphemeralKeyCreator [VList l]) = ORet (rtekc l).
+Proof. exact go_receiversToEphemeralKeyCreator. Qed.
+
+Theorem C01_source_go_newEncryptStream :
+  forall (c : crypto) (enc_step : gval -> bytes -> gval * gerr) (v : version) (W : gval) 
+    (sender : option bytes) (rcpts : list rcpt) (ra rb rc : rng),
+  let r :=
+    run_func2 (ext_nes c enc_step) f_saltpack_newEncryptStream
+      [g_version v; W; g_sender sender; VList (map g_rcpt rcpts); VBytes rb; g_rng ra rc] in
+  match es_init c enc_step (fresh_st v W) v sender rcpts ra rb rc with
+  | IStuck _ => fst r = OStuck "call"
+  | IRet e st' ra' rb' rc' =>
+      fst r = ORet match e with
+                   | Some _ => [VNil; g_errv e]
+                   | None => [g_es st'; VNil]
+                   end /\
+      lookup "rng" (snd r) = Some (g_rng ra' rc') /\ lookup "ephemeralKeyCreator" (snd r) = Some (VBytes rb')
+  end.
+Proof. exact go_newEncryptStream. Qed.
+
+Theorem C01_source_go_NewEncryptStream :
+  forall (c : crypto) (enc_step : gval -> bytes -> gval * gerr) (ra rb rc : rng) (v : version) 
+    (W : gval) (sender : option bytes) (rcpts : list rcpt),
+  fst
+    (run_func2 (ext_NES c enc_step ra rb rc) f_saltpack_NewEncryptStream
+       [g_version v; W; g_sender sender; VList (map g_rcpt rcpts)]) =
+  match rcpts with
+  | [] => ORet [VNil; VErr "ErrBadReceivers" []]
+  | _ :: _ => nes_outcome c enc_step v W sender rcpts ra rb rc
+  end.
+Proof. exact go_NewEncryptStream. Qed.
+
+Theorem C01_source_go_NewEncryptStream_wrap :
+  forall (CALLEE : list gval -> option (gval * gerr)) (V W S : gval) (l : list gval),
+  fst (run_func2 (ext_wrap CALLEE "newEncryptStream") f_saltpack_NewEncryptStream [V; W; S; VList l]) =
+  match l with
+  | [] => ORet [VNil; VErr "ErrBadReceivers" []]
+  | r0 :: _ => wrap_outcome CALLEE [V; W; S; VList l; r0; VStruct []]
+  end.
+Proof. exact go_NewEncryptStream_wrap. Qed.
+
+Theorem C01_source_go_seal_glue :
+  forall (NEW : list gval -> option (gval * gerr * gval)) (WR : gval -> gval -> option (gval * gerr * gval))
+    (CL : gval -> option (gerr * gval)) (BY : gval -> option gval) (V P S0 R EK RNG : gval),
+  fst (run_func2 (ext_glue NEW WR CL BY "newEncryptStream" 1) f_saltpack_seal [V; P; S0; R; EK; RNG]) =
+  glue_outcome NEW WR CL [V; VNil; S0; R; EK; RNG] P (fin_bytes BY).
+Proof. exact go_seal_glue. Qed.
+
+Theorem C01_source_go_seal_aliased :
+  forall (c : crypto) (BY : gval -> option gval) (v : version) (p : bytes) (sender : option bytes)
+    (rcpts : list rcpt) (ra rb rc : rng),
+  (forall (st1 st2 st3 : es_state) (n : Z) (ra' rb' rc' : rng),
+   es_init c mem_enc (fresh_st v (VBytes [])) v sender rcpts ra rb rc = IRet None st1 ra' rb' rc' ->
+   es_write c mem_enc st1 p = WRet n None st2 ->
+   es_close c mem_enc st2 = CloseRet None st3 -> BY (es_enc st1) = Some (es_enc st3)) ->
+  fst
+    (run_func2 (ext_glue (NEW_seal c) (WR_es c) (CL_es c) BY "newEncryptStream" 1) f_saltpack_seal
+       (seal_args v p sender rcpts ra rb rc)) = seal_spec c v p sender rcpts ra rb rc.
+Proof. exact go_seal_aliased. Qed.
+
+Theorem C01_source_go_seal_stale :
+  forall (c : crypto) (v : version) (p : bytes) (sender : option bytes) (rcpts : list rcpt) 
+    (ra rb rc : rng) (st1 st2 st3 : es_state) (n : Z) (ra' rb' rc' : rng),
+  es_init c mem_enc (fresh_st v (VBytes [])) v sender rcpts ra rb rc = IRet None st1 ra' rb' rc' ->
+  es_write c mem_enc st1 p = WRet n None st2 ->
+  es_close c mem_enc st2 = CloseRet None st3 ->
+  fst
+    (run_func2 (ext_glue (NEW_seal c) (WR_es c) (CL_es c) (fun b : gval => Some b) "newEncryptStream" 1)
+       f_saltpack_seal (seal_args v p sender rcpts ra rb rc)) = ORet [es_enc st1; VNil].
+Proof. exact go_seal_stale. Qed.
+
+Theorem C01_source_seal_spec_model :
+  forall c : crypto,
+  (forall k n m : bytes, length (sb_seal c k n m) = (16 + length m)%nat) ->
+  forall (v : version) (p : bytes) (sender : option bytes) (rcpts : list rcpt) (r r' : rng) (wire : bytes),
+  (Z.of_nat (length rcpts) <= 2147483647)%Z ->
+  (length p <= 295 * blk)%nat ->
+  seal c v sender rcpts p r = Ok (wire, r') ->
+  seal_spec c v p sender rcpts r (fst (model_sources rcpts r)) (snd (model_sources rcpts r)) =
+  ORet [VBytes wire; VNil].
+Proof. exact seal_spec_model. Qed.
+
+Theorem C01_source_seal_spec_model_err :
+  forall (c : crypto) (v : version) (p : bytes) (sender : option bytes) (rcpts : list rcpt) 
+    (r : rng) (n : String.string) (a : list gval),
+  (Z.of_nat (length rcpts) <= 2147483647)%Z ->
+  (exists (st' : es_state) (x y z : rng),
+     es_init c mem_enc (fresh_st v (VBytes [])) v sender rcpts r (fst (model_sources rcpts r))
+       (snd (model_sources rcpts r)) = IRet (Some (n, a)) st' x y z) ->
+  seal_spec c v p sender rcpts r (fst (model_sources rcpts r)) (snd (model_sources rcpts r)) =
+  ORet [VNil; VErr n a] /\ (exists e : err, seal c v sender rcpts p r = Err e /\ sender_err_name e = n).
+Proof. exact seal_spec_model_err. Qed.
+
+Theorem C01_source_go_Seal :
+  forall (CALLEE : list gval -> option (gval * gerr)) (V P S : gval) (l : list gval),
+  fst (run_func2 (ext_wrap CALLEE "seal") f_saltpack_Seal [V; P; S; VList l]) =
+  match l with
+  | [] => ORet [VNil; VErr "ErrBadReceivers" []]
+  | r0 :: _ => wrap_outcome CALLEE [V; P; S; VList l; r0; VStruct []]
+  end.
+Proof. exact go_Seal. Qed.
+
+Theorem C01_source_go_Seal_spec :
+  forall (c : crypto) (ra rb rc : rng) (v : version) (p : bytes) (sender : option bytes) (rcpts : list rcpt),
+  fst
+    (run_func2 (ext_wrap (SEAL_spec c ra rb rc) "seal") f_saltpack_Seal
+       [g_version v; VBytes p; g_sender sender; VList (map g_rcpt rcpts)]) =
+  match rcpts with
+  | [] => ORet [VNil; VErr "ErrBadReceivers" []]
+  | _ :: _ => seal_spec c v p sender rcpts ra rb rc
+  end.
+Proof. exact go_Seal_spec. Qed.
+
+Theorem C01_source_compose_encryptStream_init :
+  forall (c : crypto) (enc_step : gval -> bytes -> gval * gerr) (o : gval) (st : es_state) 
+    (v : version) (sender : option bytes) (rcpts : list rcpt) (ra rb rc : rng),
+  es_of_lit o = Some st ->
+  let r :=
+    run_func2 (ext_init c enc_step) f_saltpack_encryptStream_init
+      [g_es st; g_version v; g_sender sender; VList (map g_rcpt rcpts); VBytes rb; g_rng ra rc] in
+  match
+    ext_nes c enc_step "encryptStream.init"
+      [o; g_version v; g_sender sender; VList (map g_rcpt rcpts); VBytes rb; g_rng ra rc]
+  with
+  | Some [] => False
+  | Some [e] => False
+  | Some [e; es'] | Some [e; es'; _] | Some [e; es'; _; _] | Some [e; es'; _; _; _] => False
+  | Some [e; es'; _; _; _; ek'] => False
+  | Some (e :: es' :: _ :: _ :: _ :: ek' :: rng' :: _) =>
+      fst r = ORet [e] /\
+      lookup "es" (snd r) = Some es' /\
+      lookup "rng" (snd r) = Some rng' /\ lookup "ephemeralKeyCreator" (snd r) = Some ek'
+  | None => fst r = OStuck "call"
+  end.
+Proof. exact compose_encryptStream_init. Qed.
+
+Theorem C01_source_compose_WR_es :
+  forall (c : crypto) (st : es_state) (p : bytes),
+  let r := run_func2 (ext_stream c mem_enc) f_saltpack_encryptStream_Write [g_es st; VBytes p] in
+  match WR_es c (g_es st) (VBytes p) with
+  | Some (n, e, es') => fst r = ORet [n; g_errv e] /\ lookup "es" (snd r) = Some es'
+  | None => exists w : String.string, fst r = OStuck w
+  end.
+Proof. exact compose_WR_es. Qed.
+
+Theorem C01_source_compose_CL_es :
+  forall (c : crypto) (st : es_state),
+  let r := run_func2 (ext_stream c mem_enc) f_saltpack_encryptStream_Close [g_es st] in
+  match CL_es c (g_es st) with
+  | Some (e, es') => fst r = ORet [g_errv e] /\ lookup "es" (snd r) = Some es'
+  | None => (exists w : String.string, fst r = OStuck w) \/ fst r = OPanic
+  end.
+Proof. exact compose_CL_es. Qed.
+
+Theorem C01_source_compose_newEncryptStream :
+  forall (c : crypto) (enc_step : gval -> bytes -> gval * gerr) (ra rb rc : rng) (v : version) 
+    (W EK : gval) (sender : option bytes) (rcpts : list rcpt),
+  fst
+    (run_func2 (ext_nes c enc_step) f_saltpack_newEncryptStream
+       [g_version v; W; g_sender sender; VList (map g_rcpt rcpts); VBytes rb; g_rng ra rc]) =
+  match
+    ext_NES c enc_step ra rb rc "newEncryptStream"
+      [g_version v; W; g_sender sender; VList (map g_rcpt rcpts); EK; VStruct []]
+  with
+  | Some rs => ORet rs
+  | None => OStuck "call"
+  end.
+Proof. exact compose_newEncryptStream. Qed.
+
+Theorem C01_source_compose_receiversToEphemeralKeyCreator :
+  forall (c : crypto) (enc_step : gval -> bytes -> gval * gerr) (ra rb rc : rng) (l : list gval),
+  fst (run_func2 (ext_NES c enc_step ra rb rc) f_saltpack_receiversToEphemeralKeyCreator [VList l]) =
+  match ext_NES c enc_step ra rb rc "receiversToEphemeralKeyCreator" [VList l] with
+  | Some rs => ORet rs
+  | None => OStuck "call"
+  end.
+Proof. exact compose_receiversToEphemeralKeyCreator. Qed.
+
+Theorem C01_source_compose_NEW_seal :
+  forall (c : crypto) (v : version) (sender : option bytes) (rcpts : list rcpt) (ra rb rc : rng),
+  nes_outcome c mem_enc v (VBytes []) sender rcpts ra rb rc =
+  match NEW_seal c [g_version v; VNil; g_sender sender; VList (map g_rcpt rcpts); VBytes rb; g_rng ra rc] with
+  | Some (es, e, _) => ORet [es; g_errv e]
+  | None => OStuck "call"
+  end.
+Proof. exact compose_NEW_seal. Qed.
+
+Theorem C01_source_nes_session_start :
+  forall (c : crypto) (v : version) (out0 : bytes) (sender : option bytes) (rcpts : list rcpt) 
+    (ra rb rc : rng) (obj : gval),
+  nes_outcome c mem_enc v (VBytes out0) sender rcpts ra rb rc = ORet [obj; VNil] ->
+  E.fresh_es v out0 (fresh_st v (VBytes out0)) /\
+  E.go_es_init c (g_es (fresh_st v (VBytes out0))) v sender rcpts ra rb rc = Some obj.
+Proof. exact nes_session_start. Qed.
+
+Theorem C01_source_go_encrypt_session_from_NewEncryptStream :
+  forall (c : crypto) (v : version) (out0 : bytes) (sender : option bytes) (rcpts : list rcpt) 
+    (ra rb rc : rng) (pieces : list bytes) (obj : gval),
+  fst
+    (run_func2 (ext_NES c mem_enc ra rb rc) f_saltpack_NewEncryptStream
+       [g_version v; VBytes out0; g_sender sender; VList (map g_rcpt rcpts)]) = ORet [obj; VNil] ->
+  E.fresh_es v out0 (fresh_st v (VBytes out0)) /\
+  E.go_encrypt_session c (g_es (fresh_st v (VBytes out0))) v sender rcpts ra rb rc pieces =
+  match E.go_es_writes c obj pieces with
+  | Some es2 => E.go_es_close c es2
+  | None => None
+  end.
+Proof. exact go_encrypt_session_from_NewEncryptStream. Qed.
+
+End C01_source_entry.
+
+Print Assumptions C01_source_go_receiversToEphemeralKeyCreator.
+Print Assumptions C01_source_go_newEncryptStream.
+Print Assumptions C01_source_go_NewEncryptStream.
+Print Assumptions C01_source_go_NewEncryptStream_wrap.
+Print Assumptions C01_source_go_seal_glue.
+Print Assumptions C01_source_go_seal_aliased.
+Print Assumptions C01_source_go_seal_stale.
+Print Assumptions C01_source_seal_spec_model.
+Print Assumptions C01_source_seal_spec_model_err.
+Print Assumptions C01_source_go_Seal.
+Print Assumptions C01_source_go_Seal_spec.
+Print Assumptions C01_source_compose_encryptStream_init.
+Print Assumptions C01_source_compose_WR_es.
+Print Assumptions C01_source_compose_CL_es.
+Print Assumptions C01_source_compose_newEncryptStream.
+Print Assumptions C01_source_compose_receiversToEphemeralKeyCreator.
+Print Assumptions C01_source_compose_NEW_seal.
+Print Assumptions C01_source_nes_session_start.
+Print Assumptions C01_source_go_encrypt_session_from_NewEncryptStream.
+
+
